@@ -929,6 +929,11 @@ def main(argv):
         except Unrecognised as e:
             print("gen_tables: aggregation / closure / map families, shape not recognised: %s" % (e,)); return 2
         text = render(consts, arms, guards, units, rules, dflt, roll, agg)
+        try:      # binning / generators / partition / rank / extrema kernels: tools/gen_tables_map.py (conformance: Proofs/SrcTablesMap*.v)
+            import gen_tables_map
+            text += "\n" + gen_tables_map.section(repo, sys.modules[__name__])
+        except Unrecognised as e:
+            print("gen_tables: binning / generator / partition / extrema families, shape not recognised: %s" % (e,)); return 2
     except Unrecognised as e:
         print("gen_tables: rolling family, shape not recognised: %s" % (e,)); return 2
     except (OSError, ValueError, KeyError) as e:
